@@ -197,5 +197,5 @@ Example c24_nonvacuous :
   decode_payload toy_ext cmd_addr w_addr_max = DErr ErrEOF.
 Proof.
   split; [exact toy_ext_ok|]. destruct w_frame_ping_ok as [A B]. destruct w_f6_rejected as [C D].
-  repeat split; assumption.
+  split; [exact A|]. split; [exact B|]. split; [exact C|exact D].
 Qed.
